@@ -19,6 +19,9 @@ def case(draw):
         frames.append(dict(L=L, pos=pos))
     return dict(nb=nb, ntypes=ntypes, frames=frames, nt=draw(st.integers(2, 8)), imc=draw(st.booleans()),
                 dimers=draw(st.booleans()),
+                # dimers mapped to one CG bead each (csg_stat --cg): the second bead sits within 0.3 nm of the first and is wrapped into
+                # the box, so dimers near a face straddle it and the mapping needs the frame's own box in every worker
+                mapped=draw(st.booleans()), off=[[draw(st.integers(-12, 12)) / 40.0 for _ in range(3)] for _ in range(20)],
                 block=draw(st.sampled_from([0, 0, 1, 2])), first=draw(st.sampled_from([None, None, 1, 2])),
                 nframes=draw(st.sampled_from([None, None, 1, 2, 3])), cross=draw(st.booleans()))
 
@@ -27,6 +30,7 @@ def write_inputs(c, d):
     nb, nt = c["nb"], c["ntypes"]
     na = nb if nt == 1 else nb // 2
     dimers = bool(c.get("dimers")) and nb >= 2
+    mapped = dimers and bool(c.get("mapped"))
     top = "<topology>\n <molecules>\n"
     if dimers:
         # bonded two-bead molecules (beads i and i+1): bonded distribution + exclusions in the xml topology
@@ -47,11 +51,24 @@ def write_inputs(c, d):
             LA = fr["L"] * 10.0
             f.write(f"ITEM: TIMESTEP\n{k}\nITEM: NUMBER OF ATOMS\n{nb}\nITEM: BOX BOUNDS pp pp pp\n0 {LA:.10f}\n0 {LA:.10f}\n0 {LA:.10f}\n"
                     "ITEM: ATOMS id type x y z\n")
-            for i, p in enumerate(fr["pos"][:nb]):
+            P = [list(p) for p in fr["pos"][:nb]]
+            if mapped:
+                L = fr["L"]
+                for i in range(1, nb, 2):
+                    o = c["off"][(i // 2 + k) % len(c["off"])]
+                    P[i] = [(P[i - 1][a] + o[a]) % L for a in range(3)]
+            for i, p in enumerate(P):
                 ty = (i % 2 if nt == 2 else 0) if dimers else (0 if i < na else 1)
                 f.write(f"{i + 1} {ty} {p[0] * 10:.8f} {p[1] * 10:.8f} {p[2] * 10:.8f}\n")
     inter = [("A-A", "A", "A")]
-    if nt == 2:
+    if mapped:
+        tb = "B" if nt == 2 else "A"
+        open(os.path.join(d, "map.xml"), "w").write(
+            "<cg_molecule>\n <name>CGD</name>\n <ident>DIM</ident>\n <topology>\n  <cg_beads>\n   <cg_bead>\n    <name>C1</name>\n    <type>C</type>\n"
+            "    <mapping>M</mapping>\n    <beads>1:DIM:A1 1:DIM:B1</beads>\n   </cg_bead>\n  </cg_beads>\n </topology>\n <maps>\n  <map>\n   <name>M</name>\n"
+            "   <weights>1 2</weights>\n  </map>\n </maps>\n</cg_molecule>\n")
+        inter = [("C-C", "C", "C")]
+    elif nt == 2:
         inter.append(("B-B", "B", "B"))
         if c["cross"]:
             inter.append(("A-B", "A", "B"))
@@ -59,7 +76,7 @@ def write_inputs(c, d):
     for name, t1, t2 in inter:
         s += (f" <non-bonded>\n  <name>{name}</name>\n  <type1>{t1}</type1>\n  <type2>{t2}</type2>\n  <min>0.0</min>\n  <max>1.0</max>\n"
               "  <step>0.1</step>\n  <inverse><imc><group>g</group></imc><target>" + name + ".dist.tgt</target></inverse>\n </non-bonded>\n")
-    if dimers:
+    if dimers and not mapped:
         s += " <bonded>\n  <name>bond</name>\n  <min>0.0</min>\n  <max>6.0</max>\n  <step>0.25</step>\n </bonded>\n"
     s += "</cg>\n"
     open(os.path.join(d, "settings.xml"), "w").write(s)
@@ -79,6 +96,8 @@ def run_once(c, ctx, d, nt, sub):
     args = ["csg_stat", "--top", "../top.xml", "--trj", "../traj.dump", "--options", "../settings.xml", "--nt", str(nt)]
     if c["imc"]:
         args.append("--do-imc")
+    if c.get("dimers") and c.get("mapped") and c["nb"] >= 2:
+        args += ["--cg", "../map.xml"]
     if c["block"]:
         args += ["--block-length", str(c["block"])]
     if c["first"] is not None:
@@ -106,6 +125,8 @@ def run_case(c, ctx, d):
         r.cls("blocks")
     if c.get("dimers") and c["nb"] >= 2:
         r.cls("bonded-dimers(xml bond, exclusions)")
+    if c.get("dimers") and c.get("mapped") and c["nb"] >= 2:
+        r.cls("mapped(--cg, dimers straddling faces)")
     nsel = len(c["frames"]) - (max(c["first"] or 1, 1) - 1)
     if c["nframes"] is not None:
         nsel = min(nsel, c["nframes"])
